@@ -775,6 +775,7 @@ FIXED = {
     'numeric-ident': '(module\n  (func $1 (export "f") (param $0 i32) (param $x i32) (result i32) local.get $0)\n)\n',
     'export-name-escape': '(module\n  (memory 1)\n  (export "m\\"q" (memory 0))\n)\n',
     'import-name-escape': '(module\n  (import "env" "a\\01b" (func $f))\n)\n',
+    'import-table': '(module\n  (import "env" "tab" (table 1))\n)\n',
     'import-param-names': '(module\n  (import "env" "f" (func $f (param $x i32) (param $y i64)))\n)\n',
     'type-param-names': '(module\n  (type $t (func (param $x i32) (result i32)))\n  (table 1 funcref)\n  (func $f (export "f") (param $a i32) (result i32) local.get $a i32.const 0 call_indirect (type $t))\n)\n',
     'plain': '(module $plain\n  (import "env" "log" (func $log (param i32)))\n  (memory $mem 1 2)\n  (table $tab 2 funcref)\n  (type $t (func (param i32) (result i32)))\n  (global $g (mut i32) (i32.const 5))\n  (global $c i64 (i64.const -9))\n  (export "memory" (memory $mem))\n  (export "g" (global $g))\n  (func $id (export "id") (param $a i32) (result i32)\n    (local $t i32)\n    block $out (result i32)\n      local.get $a\n      local.tee $t\n      i32.const 0\n      call_indirect (type $t)\n      local.get $t\n      br_if $out\n      loop $again\n        local.get $t\n        i32.eqz\n        br_if $again\n      end\n    end\n    global.get $g\n    i32.add\n  )\n  (func $two (param i32) (result i32) local.get 0 i32.const 2 i32.mul)\n  (elem (i32.const 0) $two $id)\n  (data (i32.const 16) "a\\"b\\\\c\\n\\00")\n)\n',
